@@ -17,6 +17,7 @@ extern crate rustc_session;
 extern crate rustc_span;
 
 use rustc_hir::def::DefKind;
+use rustc_hir::intravisit::{self, Visitor};
 use rustc_hir::def_id::{DefId, LocalDefId, LOCAL_CRATE};
 use rustc_middle::mir::*;
 use rustc_middle::ty::print::{with_no_trimmed_paths, with_no_visible_paths};
@@ -102,6 +103,22 @@ fn opt_s(x: Option<String>) -> J {
 }
 
 // ---------------------------------------------------------------------------------------------
+
+struct UnsafeCounter {
+    n: i128,
+    lines: Vec<i128>,
+}
+
+impl<'v> Visitor<'v> for UnsafeCounter {
+    fn visit_block(&mut self, b: &'v rustc_hir::Block<'v>) {
+        if let rustc_hir::BlockCheckMode::UnsafeBlock(src) = b.rules {
+            if matches!(src, rustc_hir::UnsafeSource::UserProvided) && !b.span.from_expansion() {
+                self.n += 1;
+            }
+        }
+        intravisit::walk_block(self, b);
+    }
+}
 
 struct Cx<'tcx> {
     tcx: TyCtxt<'tcx>,
@@ -378,6 +395,13 @@ impl<'tcx> Cx<'tcx> {
             } else if let DefKind::Trait = tcx.def_kind(cont) {
                 o.push(("in_trait", s(self.path(cont))));
             }
+        }
+        // user-written unsafe blocks in this body (nested closures are separate bodies and not descended into)
+        {
+            let hir_body = tcx.hir_body_owned_by(ldid);
+            let mut uc = UnsafeCounter { n: 0, lines: Vec::new() };
+            uc.visit_expr(hir_body.value);
+            o.push(("unsafe_blocks", J::N(uc.n)));
         }
         // locals
         let mut names: Vec<Option<String>> = vec![None; body.local_decls.len()];
